@@ -439,6 +439,8 @@ def conv_params(p):
     for k, v in p.items():
         if k in ('lambdas', 'lambdas_implicit', 'lambdas_explicit'):
             out[k] = np.array([complex(a, b) for a, b in v])
+        elif k == 'u0' and isinstance(v, list):
+            out[k] = np.array(v, dtype=float)
         elif k == 'nvars' and isinstance(v, list) and v and isinstance(v[0], list):
             out[k] = [tuple(x) for x in v]
         elif k == 'nvars' and isinstance(v, list):
@@ -499,6 +501,8 @@ def instrument(ctrl, ctx):
 
     def restart_block(active_slots, time, u0):
         ctx.block += 1
+        if ctx.block > ctx.sc.get('max_blocks', 3000):
+            raise StepCapExceeded(f'more than {ctx.sc.get("max_blocks", 400)} blocks')
         ctx.cur = {}
         ctx.blocks.append(
             {
